@@ -213,6 +213,23 @@ def events(plan_units, plan_variants, seed, nvariants):
                 fields, nb, na, ok, err = [], 0, 0, False, repr(ex)[:200]
             ev.append({"kind": "rt", "variant": v, "ok": ok, "fields": fields, "nbefore": nb, "nafter": na,
                        "_m": dict(v, ok=ok, error=err, has_none_section=bool(v["optional_none"]), via="api")})
+        # the same round trip in a child interpreter under the POSIX locale (LC_ALL=C, UTF-8 mode off): what a file holds must not depend
+        # on the locale of the process that wrote it (variants with non-ASCII strings, no absent sections)
+        import subprocess
+        import sys as _sys
+        import json as _json
+        from nssverif import VERIF, REPO
+        loc_variants = [v for v in pick[:nvariants] if not v["optional_none"] and any(ord(ch) > 127 for ch in STRINGS[v["title"]])][:6]
+        if loc_variants:
+            env = dict(os.environ, LC_ALL="C", LANG="C", PYTHONUTF8="0", PYTHONCOERCECLOCALE="0", PYTHONIOENCODING="utf-8",
+                       PYTHONPATH=VERIF, VERIF_REPO=REPO)
+            try:
+                r = subprocess.run([_sys.executable, "-c", "from drivers import c15; c15._locale_child()"], input=_json.dumps({"variants": loc_variants, "seed": seed}),
+                                   env=env, cwd=VERIF, stdout=subprocess.PIPE, stderr=subprocess.PIPE, text=True, timeout=300, encoding="utf-8")
+                child = _json.loads(r.stdout.strip().splitlines()[-1])
+            except Exception as ex:
+                raise RuntimeError(f"C15 locale child did not answer: {ex!r}")
+            ev.extend(child)
         # the create-config command line
         from click.testing import CliRunner
         from nuspacesim.apps.cli import cli
@@ -242,6 +259,37 @@ def events(plan_units, plan_variants, seed, nvariants):
     finally:
         shutil.rmtree(tmp, ignore_errors=True)
     return ev
+
+
+def _locale_child():
+    """runs in a child interpreter under the POSIX locale: TOML round trips of the variants given on stdin, events on stdout"""
+    import json
+    import locale
+    import sys
+    use_repo()
+    from nuspacesim.config import create_toml, config_from_toml
+    req = json.loads(sys.stdin.read())
+    rng = np.random.default_rng(req["seed"] + 5)
+    tmp = tempfile.mkdtemp(prefix="nsv-c15loc-")
+    out = []
+    try:
+        for v in req["variants"]:
+            toks = {}
+            path = os.path.join(tmp, "config.toml")
+            try:
+                c = make_variant(v, rng)
+                create_toml(path, c)
+                back = config_from_toml(path)
+                fields, nb, na = project_fields(c, back, toks)
+                ok, err = True, None
+            except Exception as ex:
+                fields, nb, na, ok, err = [], 0, 0, False, repr(ex)[:200]
+            out.append({"kind": "rt", "variant": v, "ok": ok, "fields": fields, "nbefore": nb, "nafter": na,
+                        "_m": dict(v, ok=ok, error=err, has_none_section=False, via="api, child interpreter under the POSIX locale",
+                                   preferred_encoding=locale.getpreferredencoding(False))})
+    finally:
+        shutil.rmtree(tmp, ignore_errors=True)
+    sys.stdout.write(json.dumps(out) + "\n")
 
 
 def run(tier="quick", seed=0):
